@@ -91,7 +91,9 @@ def peek_type(e, pb, ty, n=0):
         nm = ident_name(t)
         return nm is not None and e.branch(str_eq(nm, KW_TOKENS[short]))
     if short == 'LitInt':
-        return isinstance(t, TLit) and re.match(r'\d', t.text) is not None
+        if isinstance(t, TPunct) and t.ch == '-':          # syn's LitInt peeks through a leading minus sign
+            t = sub.peekn(1)
+        return isinstance(t, TLit) and re.match(r'\d', t.text) is not None and not re.search(r'\.\d|e[+-]?\d', t.text)
     if short == 'Lit':
         return isinstance(t, TLit)
     if short == 'Lifetime':
@@ -243,6 +245,8 @@ def parse_as(e, pb, ty, gen_ctx=None):
         if is_int_lit(t):
             pb.pos += 1
             return Agg('syn::Index', [int(t.text), Opq('Span', 'idx:' + t.text)]), None
+        if isinstance(t, TLit) and re.match(r'\d', t.text) and not re.search(r'\.\d|e[+-]?\d', t.text):
+            pb.pos += 1
         return None, pb.err('expected unsuffixed integer')
     if bare == 'syn::Member':
         nm = ident_name(t)
@@ -252,7 +256,8 @@ def parse_as(e, pb, ty, gen_ctx=None):
         if is_int_lit(t):
             pb.pos += 1
             return EnumV(MEMBER, 1, {1: [Agg('syn::Index', [int(t.text), Opq('Span', 'idx:' + t.text)])]}), None
-        if isinstance(t, TLit) and re.match(r'\d', t.text):
+        if isinstance(t, TLit) and re.match(r'\d', t.text) and not re.search(r'\.\d|e[+-]?\d', t.text):
+            pb.pos += 1          # syn parses the LitInt (consuming it) before rejecting its suffix; ParseBuffer does not rewind on error
             return None, pb.err('expected unsuffixed integer')
         return None, pb.err('expected identifier or integer')
     if bare == 'syn::WherePredicate':
